@@ -42,8 +42,10 @@ pub fn gen_g6(seed: u64, cases: usize, out: &mut Out) {
     for id in 0..cases {
         let ty = r.below(5);
         // sizes cross the 62/63 header switch
-        let n = match r.below(10) { 0 => 0, 1 => 1, 2 => 62, 3 => 63, 4 => 64, 5 => 60 + r.below(11), _ => 2 + r.below(14) };
-        let dens = [2usize, 10, 30, 50, 90][r.below(5)];
+        let mut n = match r.below(10) { 0 => 0, 1 => 1, 2 => 62, 3 => 63, 4 => 64, 5 => 60 + r.below(11), _ => 2 + r.below(14) };
+        let mut dens = [2usize, 10, 30, 50, 90][r.below(5)];
+        // orders whose 18-bit header needs more than one byte of value (a few, sparse: the adjacency has ~40000 bits)
+        if id % 40 == 7 { n = [255usize, 256, 257, 300, 511, 513][r.below(6)]; dens = 1; }
         let mut es: Vec<(usize, usize)> = Vec::new();
         for a in 0..n { for b in 0..a { if r.below(100) < dens { es.push((b, a)); } } }
         out.case(id, &[cfg!(debug_assertions) as i64, ty as i64]);
@@ -85,7 +87,7 @@ pub fn gen_g6(seed: u64, cases: usize, out: &mut Out) {
     }
 }
 
-const ALPHABET: [&str; 12] = ["\"", "\\", "\n", "a", "{", "}", ";", "->", " ", "]", "\\\"", "l"];
+const ALPHABET: [&str; 14] = ["\"", "\\", "\n", "a", "{", "}", ";", "->", " ", "]", "\\\"", "l", "\u{e9}", "\u{2192}"];
 
 fn rand_string(r: &mut Rng) -> String {
     let k = r.below(6);
